@@ -73,6 +73,7 @@ def run_verus_units(prop, spec, snap, workdir, tier, seed):
             undecided.append('unit %s cannot be loaded: %r' % (uname, e))
             continue
         mine = {fn: props for fn, props in unit.OBLIGATIONS.items() if prop in props}
+        optional = {fn: props for fn, props in getattr(unit, 'OPTIONAL', {}).items() if prop in props}
         if not mine:
             continue
         try:
@@ -86,7 +87,7 @@ def run_verus_units(prop, spec, snap, workdir, tier, seed):
         res = None
         unstable = []
         for sd in seeds:
-            r = vunit.run_verus(asm, os.path.join(workdir, 'verus'), seed=sd,
+            r = vunit.run_verus(asm, os.path.join(workdir, 'verus'), seed=sd, rlimit=30,
                                 timeout=(1800 if tier == 'thorough' else 600))
             if res is None:
                 res = r
@@ -110,13 +111,13 @@ def run_verus_units(prop, spec, snap, workdir, tier, seed):
             return out
         rl = _rlimited(res)
         if rl:
-            r2 = vunit.run_verus(asm, os.path.join(workdir, 'verus'), rlimit=100,
+            r2 = vunit.run_verus(asm, os.path.join(workdir, 'verus'), rlimit=300,
                                  timeout=(3600 if tier == 'thorough' else 1200))
             r2['wall_s'] += res['wall_s']
             r2['smt_ms'] += res['smt_ms']
             res = r2
             for fn in _rlimited(res):
-                undecided.append('unit %s: %s hits the solver resource limit even at rlimit 100 - undecided' % (uname, fn))
+                undecided.append('unit %s: %s hits the solver resource limit even at rlimit 300 - undecided' % (uname, fn))
                 res['functions'][fn]['rlimit_only'] = True
         info = dict(unit=uname, cmd=res['cmd'], wall_s=res['wall_s'], smt_ms=res['smt_ms'], rc=res['rc'],
                     verified=res.get('verified'), errors=res.get('n_errors'),
@@ -147,11 +148,15 @@ def run_verus_units(prop, spec, snap, workdir, tier, seed):
                                 failed=sum(1 for c in canaries if c in res['functions'] and not res['functions'][c]['success']))
         # every failing function must be an obligation or a canary
         for fn, f in res['functions'].items():
-            if not f['success'] and fn not in unit.OBLIGATIONS and fn not in canaries:
+            if not f['success'] and fn not in unit.OBLIGATIONS and fn not in canaries and fn not in getattr(unit, 'OPTIONAL', {}):
                 undecided.append('unit %s: non-obligation function %s fails' % (uname, fn))
+        for fn in optional:   # contracts for functions that exist only after an edit (overrides of std defaults)
+            if fn in res['functions']:
+                mine[fn] = optional[fn]
         for fn in mine:
             f = res['functions'].get(fn)
-            ob = dict(name='V:%s:%s' % (uname, fn), backend='verus/z3', unit=uname, function=fn, bounded=None)
+            ob = dict(name='V:%s:%s' % (uname, fn), backend='verus/z3', unit=uname, function=fn, bounded=None,
+                      optional=(fn in optional))
             if f is None:
                 ob['status'] = 'missing'
                 undecided.append('unit %s: obligation %s produced no verification condition' % (uname, fn))
@@ -426,7 +431,7 @@ def decide(prop, spec, tier, seed, workdir, t0, args):
             else:
                 unmatched.append(f)
         if unmatched:
-            if o['name'] in base or not base:
+            if o['name'] in base or not base or o.get('optional'):
                 violations.append((o, unmatched))
             else:
                 undecided.append('obligation %s fails but has never been discharged on the pinned tree '
